@@ -44,7 +44,7 @@ def bad_operator(inputs, value):
 
 
 def run(ctx: Ctx):
-  for r in (r1, r2, r3, r4, r8, r9, r10, r13, r15, r16, r18, r19):
+  for r in (r1, r2, r3, r4, r8, r9, r10, r13, r15, r16, r18, r19, r20):
     ctx.guard(r)
   from mlmverif.props import c18, c19
   ctx.include('R-C08-5', '"leaves the caller\'s input objects untouched": the'
@@ -853,11 +853,50 @@ def r9(ctx: Ctx):
   ctx.floor(rule, 1, n)
 
 
+def r20(ctx: Ctx):
+  rule = 'R-C08-20'
+  ctx.rule(rule, '"invalid key/argument combinations are rejected, not silently mis-routed": where OUTPUT keys are paired with the'
+           ' values to store under them, the pairing is strict — every `zip(...)` of tree_fns.py / tree.py one of whose'
+           ' operands is the output keys (`self.output_keys`, or `keys` next to `values`/`outputs`) carries strict=True. A'
+           ' function that returns more or fewer values than there are output keys is then an error; a lenient zip routes'
+           ' the first min(#keys, #values) and drops the rest without a word')
+  n = 0
+  for mod in (TF, TT):
+    mi = ctx.repo.module(mod)
+    fns = list(mi.functions.values()) + [m_ for c in mi.classes.values() for m_ in c.methods.values()]
+    for fi in fns:
+      for c in ast.walk(fi.node):
+        if not (isinstance(c, ast.Call) and unparse(c.func) == 'zip' and len(c.args) >= 2
+                and not any(isinstance(a, ast.Starred) for a in c.args)):
+          continue
+        texts = [unparse(a) for a in c.args]
+        keyish = [t for t in texts if t.endswith('output_keys') or t in ('keys', 'key_paths', 'output_keys')]
+        valish = [t for t in texts if t in ('values', 'outputs', 'output', 'results') or t.endswith('outputs')]
+        if not keyish or not valish:
+          continue
+        n += 1
+        strict = kwarg(c, 'strict')
+        what = f'{fi.qualname}: `zip({", ".join(texts)})` pairs output keys and values strictly'
+        if isinstance(strict, ast.Constant) and strict.value is True:
+          ctx.ok(rule, fi, what, c)
+        else:
+          ctx.fail(rule, fi, what,
+                   f'`{unparse(c)[:70]}` in {fi.qualname} is not strict: when the function returns a different number of values than'
+                   f' there are output keys, the surplus values (or keys) are dropped silently instead of being rejected', node=c)
+  ctx.floor(rule, 2, n)
+
+
 from mlmverif.selfcheck import B, OK  # noqa: E402
 
 _F = 'chainables/tree_fns.py'
 _T = 'chainables/transform.py'
 VARIANTS = [
+    B('outputs-zipped-leniently-with-their-keys', 'chainables/tree_fns.py',
+      "    for keys, output in zip(self.output_keys, outputs, strict=True):", "    for keys, output in zip(self.output_keys, outputs):", 'R-C08-20'),
+    B('setter-zips-keys-and-values-leniently', 'chainables/tree.py',
+      "          for key, value in zip(keys, values, strict=True):", "          for key, value in zip(keys, values):", 'R-C08-20'),
+    OK('outputs-zipped-strictly-through-a-local', 'chainables/tree_fns.py',
+       "    for keys, output in zip(self.output_keys, outputs, strict=True):", "    pairs = zip(self.output_keys, outputs, strict=True)\n    for keys, output in pairs:"),
     B('identity-substituted-for-a-falsy-callable', 'chainables/tree_fns.py',
       "    if self.fn is None:\n      if input_argkeys:", "    if not self.fn:\n      if input_argkeys:", 'R-C08-19'),
     B('revert-select-defaults-output-key-by-truth', 'chainables/transform.py',
